@@ -62,12 +62,12 @@ def gen_matrix(rng):
             gap = rng.choice([0, 0, 1, 4, 8])
             if pos + gap + w > size * 8:
                 break
-            sigs.append({"name": "%s%d" % (rng.choice(["sig", "Speed", "st"]), signo), "start": pos + gap, "size": w,
+            sigs.append({"name": "%s%d" % (rng.choice(["sig", "Speed", "st", "st1_1"]), signo), "start": pos + gap, "size": w,
                          "receivers": rng.sample(ecus, rng.choice([0, 1, 1, 2])),
                          "attrs": [["SgInt", str(rng.randint(0, 9))]] * (rng.random() < 0.3) + [["SgStr", rng.choice(["a", "b c"])]] * (rng.random() < 0.2)})
             signo += 1
             pos += gap + w
-        frames.append({"name": "%s%d" % (rng.choice(["Frame", "Msg", "Frame_x"]), k), "id": arbid, "ext": ext, "size": size, "fd": fd,
+        frames.append({"name": "%s%d" % (rng.choice(["Frame", "Msg", "Frame_x", "Msg0_0"]), k), "id": arbid, "ext": ext, "size": size, "fd": fd,
                        "tx": rng.sample(ecus, rng.choice([0, 1, 1, 1, 2])), "sigs": sigs,
                        "attrs": [["FrInt", str(rng.randint(0, 9))]] * (rng.random() < 0.3) + [["FrStr", rng.choice(["x", "y z"])]] * (rng.random() < 0.2)})
     return {"ecus": ecus, "frames": frames}
